@@ -606,7 +606,7 @@ func c14forms(c *an.Ctx) {
 			}
 		}
 		for _, call := range p.CallsIn(f, pipeCall) {
-			if len(call.Args) == 3 && an.Norm(f, call.Args[1]) == "$p0.CallArgs" && an.Str(call.Args[2]) == "nil" {
+			if len(call.Args) == 3 && an.Norm(f, call.Args[1]) == "$p0.CallArgs" && (an.Str(call.Args[2]) == "nil" || an.Norm(f, call.Args[2]) == "nil") {
 				ok = true
 			}
 		}
